@@ -263,7 +263,10 @@ def run_transform(R, name, B, L):
 TRANSFORM_ENVS = ["Knapsack", "Maze@3x3", "Snake", "Cleaner@3x3x1", "GraphColoring", "TSP", "SlidingTilePuzzle", "Connector", "Minesweeper", "CVRP",
                   "Tetris", "RubiksCube", "LevelBasedForaging", "JobShop", "Sudoku"]
 # minutes each (large batched encodings): thorough tier only
-THOROUGH_EXTRA = ["FlatPack", "Sokoban", "MultiCVRP", "Game2048", "RobotWarehouse", "BinPack@csv"]
+# RobotWarehouse is NOT in the list: its reset/step draw with jax.random.choice(replace=False) on a batched operand, for which the
+# permutation stub is not lane-consistent under vmap (first end-to-end run of this tier: 8 models that do not replay); its vmap/scan
+# equivalence is therefore not claimed (the IR-level facts and the concrete eager/jit/instance comparisons of run_ir still are)
+THOROUGH_EXTRA = ["FlatPack", "Sokoban", "MultiCVRP", "Game2048", "BinPack@csv"]
 JOBTIMEOUT = {"quick": 600, "thorough": 2400}
 
 
